@@ -461,6 +461,19 @@ pub fn judge(sc: &Scenario) -> Judgement {
         j.notes.push(format!("other-property=C19 emitted stream is not well-framed: {e}"));
         return j;
     }
+    // a well-framed body that is not a JSON-RPC response with an integer id and exactly one of
+    // result / error is not "a response carrying its id"
+    if let Some(RxMsg::Malformed { why, body }) = rec.frames.iter().map(|f| &f.msg).find(|m| matches!(m, RxMsg::Malformed { .. })) {
+        if !rec.epipe_fired {
+            j.violate(
+                ID,
+                "well-formed-response",
+                format!("well-formed-response {why}"),
+                format!("the server sent a message that is not a well-formed JSON-RPC response or notification ({why}): {body}"),
+            );
+            return j;
+        }
+    }
     if rec.epipe_fired {
         // once the client has stopped listening only termination is specified; panics of the
         // responder / broker / main on the broken pipe are the expected way down
